@@ -22,13 +22,14 @@ type c03Bind struct {
 	Seq   wire.Bytes `json:"seq"`
 	Probe int        `json:"probe"`           // -1 for a macro
 	Macro wire.Bytes `json:"macro,omitempty"` // macro body (key bytes)
+	Meta  bool       `json:"meta,omitempty"`  // installed in its meta-encoded spelling (\M-a for ESC a)
 }
 
 type c03X struct {
 	Keymap string     `json:"keymap"` // emacs | vi-insert | vi-command | vi-opp | vi-visual | menu-select
 	Table  []c03Bind  `json:"table"`
 	Input  wire.Bytes `json:"input"`
-	Enter  int        `json:"enter"` // number of setup tokens entering the keymap
+	Enter  int        `json:"enter"`           // number of setup tokens entering the keymap
 	Local  string     `json:"local,omitempty"` // local keymap that stays active while the input is typed ("" | vi-visual)
 	Core   bool       `json:"core,omitempty"`  // prefix-free table: no bound sequence is a proper prefix of another
 }
@@ -88,6 +89,9 @@ func genC03(g *Gen, tier string, idx int) *wire.Scenario {
 	}
 	for i, s := range seqs {
 		b := c03Bind{Seq: wire.Bytes(s), Probe: i % 10}
+		if strings.Contains(s, "\x1b") && g.P(40) {
+			b.Meta = true
+		}
 		if g.P(15) && !x.Core {
 			// a macro whose body is another bound sequence or plain keys
 			b.Probe = -1
@@ -118,6 +122,11 @@ func genC03(g *Gen, tier string, idx int) *wire.Scenario {
 				// a bound sequence broken off before its last key, by a neutral key (in vi command mode
 				// the pinned tree loses the commands typed after it: left to the other batch)
 				s := Pick(g, seqs)
+				if strings.Contains(s, "\x1b") && x.Keymap != "emacs" {
+					// a sequence broken off after its ESC leaves vi insert mode: another scenario
+					in.WriteString("b")
+					continue
+				}
 				in.WriteString(s[:g.Range(1, len(s)-1)] + "b")
 			default:
 				in.WriteString("b")
@@ -152,7 +161,7 @@ func genC03(g *Gen, tier string, idx int) *wire.Scenario {
 		sc.Script = append(sc.Script, tok(string([]byte{b}), "key"))
 	}
 	for _, b := range x.Table {
-		bs := wire.BindSpec{Keymap: x.Keymap, Seq: b.Seq}
+		bs := wire.BindSpec{Keymap: x.Keymap, Seq: b.Seq, Meta: b.Meta}
 		if b.Probe >= 0 {
 			bs.Action = fmt.Sprintf("verif-probe-%d", b.Probe)
 		} else {
